@@ -134,7 +134,8 @@ pub fn cone_event(rng: &mut Rng, depth: u8, dd: u8, lon: f64, lat: f64, r: f64, 
                     "in": format!("{} r={:e}", pos_str(lon, lat), r)});
   let mut ev = base;
   let m = ev.as_object_mut().unwrap();
-  m.insert("sar".into(), json!(crate::refcmp::cone(depth, dd, lon, lat, r, &res)));
+  let refcells = crate::refcmp::cone_cells(depth, dd, lon, lat, r);
+  if res.is_none() { m.insert("sar".into(), json!(refcells.is_none() as u8)); }
   match res {
     None => { m.insert("p".into(), json!(1)); m.insert("dmax".into(), json!(0)); m.insert("cells".into(), json!([])); m.insert("wit".into(), json!([]));
               m.insert("full_excess".into(), json!(0)); m.insert("slack".into(), json!(0)); m.insert("rtol".into(), json!(0)); m.insert("pen".into(), json!(0));
@@ -183,6 +184,19 @@ pub fn cone_event(rng: &mut Rng, depth: u8, dd: u8, lon: f64, lat: f64, r: f64, 
       m.insert("pen".into(), json!((pen * 1000.0).round() as i64));
       m.insert("full_excess".into(), json!(if r >= PI { -1 } else { e15(full_excess) }));
       m.insert("slack".into(), json!(if r >= PI { -1 } else { e15(slack) }));
+      // attribution to open findings: not worse than the reference copy of the crate on the three metric clauses
+      let nw = match &refcells {
+        None => true,
+        Some(rc) => {
+          let miss_nw = wit.iter().all(|w| covered(w) || !crate::refcmp::covers(rc, w));
+          let mut fx_ref: f64 = -1.0;
+          for c in rc.iter().filter(|c| c.f).take(if large { 100_000 } else { 150 }) { for (l, b) in cell_border_points(c, if large { 3 } else { 7 }) { fx_ref = fx_ref.max(ang_dist(l, b, lon, lat) - r); } }
+          let mut sl_ref: f64 = -1.0;
+          for c in rc.iter() { let (l, b) = cell_centre(c); sl_ref = sl_ref.max(ang_dist(l, b, lon, lat) - (r + 2.0 * dmax(c.p.len() as u8))); }
+          miss_nw && full_excess <= fx_ref.max(1e-12 + 1e-9 * r) + 1e-15 && slack <= sl_ref.max(0.0) + 1e-15
+        }
+      };
+      m.insert("sar".into(), json!(nw as u8));
       m.insert("rtol".into(), json!((r * 1e6).round() as i64)); // 1e-9 * r in units of 1e-15
     }
   }
@@ -411,7 +425,7 @@ pub fn record_c16(rng: &mut Rng, count: u64, out: &mut Out) {
         let (lmin, lmax) = (lats.iter().cloned().fold(f64::MAX, f64::min), lats.iter().cloned().fold(0.0, f64::max));
         let straddle = (lmin < tl + 1e-12 && lmax > tl - 1e-12) as u8;
         let capcell = (lmin >= tl - 1e-12) as u8;
-        out.emit(json!({"ev": "c2v", "d": depth, "c": c.json(), "sar": crate::refcmp::c2v(depth, lon, lat, b), "p": b.is_none() as u8, "deficit": b.map_or(0, |b| deficit_ppm(true_c2v(depth, c), b)),
+        out.emit(json!({"ev": "c2v", "d": depth, "c": c.json(), "sar": crate::refcmp::c2v_nw(depth, lon, lat, b), "p": b.is_none() as u8, "deficit": b.map_or(0, |b| deficit_ppm(true_c2v(depth, c), b)),
                         "straddle": straddle, "capcell": capcell,
                         "polerow": if c.b < 4 { (2 * (n - 1) - (c.i + c.j)) as i64 } else if c.b >= 8 { (c.i + c.j) as i64 } else { -1 }, "in": pos_str(lon, lat)}));
       }
@@ -443,7 +457,7 @@ pub fn record_c16(rng: &mut Rng, count: u64, out: &mut Out) {
         }
         let reg = if lat.abs() + r >= 0.7297276562269663 { "npc" } else { "eqr" };
         let ccap = (lat.abs() >= 0.7297276562269663) as u8;
-        out.emit(json!({"ev": "c2v_radius", "d": depth, "from": from, "sar": crate::refcmp::c2v_radius(depth, from, lon, lat, r, b1, &arr), "reg": reg, "ccap": ccap, "r3": (r * 1000.0) as i64, "p": (b1.is_none() || arr.is_none()) as u8, "ncand": ncand, "deficit": worst1, "deficit_arr": worst_arr,
+        out.emit(json!({"ev": "c2v_radius", "d": depth, "from": from, "sar": crate::refcmp::c2v_radius_nw(depth, from, lon, lat, r, b1, &arr), "reg": reg, "ccap": ccap, "r3": (r * 1000.0) as i64, "p": (b1.is_none() || arr.is_none()) as u8, "ncand": ncand, "deficit": worst1, "deficit_arr": worst_arr,
                         "len_ok": arr.as_ref().map_or(0, |a| (a.len() == (depth + 1 - from) as usize) as u8), "cls": class, "in": format!("{} r={:e}", pos_str(lon, lat), r)}));
       }
       _ => {
@@ -488,11 +502,18 @@ pub fn ellipse_event(rng: &mut Rng, depth: u8, dd: u8, lon: f64, lat: f64, a: f6
   let mut ev = json!({"ev": "ellipse", "d": depth, "dd": dd, "f": face_of(n, lon, lat).json(), "circular": (a == b) as u8, "cls": class,
                       "in": format!("{} a={:e} b={:e} pa={:e}", pos_str(lon, lat), a, b, pa)});
   let m = ev.as_object_mut().unwrap();
-  m.insert("sar".into(), json!(crate::refcmp::ellipse(depth, dd, lon, lat, a, b, pa, &res)));
+  let refcells = crate::refcmp::ellipse_cells(depth, dd, lon, lat, a, b, pa);
   let cells = bmoc_fields(m, &res);
   let wit = if a == b && res.is_some() { cone_witnesses_for(rng, depth, lon, lat, a, 80, cells.as_deref().unwrap_or(&[])) } else { vec![] };
   m.insert("wit".into(), Value::Array(wit.iter().map(|c| json!({"b": c.b, "p": c.p})).collect()));
   m.insert("slack".into(), json!(cells.as_ref().map_or(-1, |cs| worst_slack(cs, lon, lat, a))));
+  // attribution to open findings: not worse than the reference copy (witnesses of the circular case, tightness, panic)
+  let nw = match (&cells, &refcells) {
+    (None, r) => r.is_none(),
+    (Some(_), None) => true,
+    (Some(cs), Some(rc)) => wit.iter().all(|w| crate::refcmp::covers(cs, w) || !crate::refcmp::covers(rc, w)) && worst_slack(cs, lon, lat, a) <= worst_slack(rc, lon, lat, a).max(0),
+  };
+  m.insert("sar".into(), json!(nw as u8));
   // attribution only (see cone_event): centre in a polar cap, penetration of the uncovered witness cells
   let mut pen: f64 = 0.0;
   if let Some(cs) = &cells {
@@ -574,8 +595,11 @@ pub fn polygon_event(rng: &mut Rng, depth: u8, exact: bool, centre: (f64, f64), 
                       "vf": vs.iter().map(|(l, b)| face_of(n, l.rem_euclid(TWO_PI), *b).json()).collect::<Vec<_>>(),
                       "in": format!("{} r={:e} {:?}", pos_str(centre.0, centre.1), radius, vs)});
   let m = ev.as_object_mut().unwrap();
-  m.insert("sar".into(), json!(crate::refcmp::polygon(depth, vs, exact, &res)));
+  let refcells = crate::refcmp::polygon_cells(depth, vs, exact);
   let cells = bmoc_fields(m, &res);
+  // attribution to open findings: the same set of cells as the reference copy (whatever the flags), the same panic status
+  let keyset = |cs: &Vec<C>| cs.iter().map(|c| (c.b, c.p.clone())).collect::<std::collections::BTreeSet<_>>();
+  m.insert("sar".into(), json!((cells.as_ref().map(keyset) == refcells.as_ref().map(keyset)) as u8));
   // convex polygons: a cell flagged full has its 4 vertices and its centre inside (margin 1e-9 around the edges)
   let mut full_bad = 0;
   if let (true, Some(cs)) = (convex, &cells) {
